@@ -271,12 +271,33 @@ theorem persisted_is_trusted (P : Params) (st : State) (snap : Id) (multi fin : 
   repeat' split
   all_goals rfl
 
+/-- a proposal (not a finalized snapshot) that carries a transaction finalized in another snapshot is
+    refused at signing: "transaction … finalized in snapshot …" -/
+theorem finalized_elsewhere_refused (P : Params) (st : State) (snap s : Id) (multi : Bool) (tx b : Tx)
+    (hb : aget st.txs tx.id = some b) (hf : aget st.fin tx.id = some s) (hne : s ≠ snap) :
+    (kernelValidateTx P st snap multi false tx).1 = some .err := by
+  unfold kernelValidateTx
+  simp [hb, hf, hne]
+
+/-- what that rule protects: writing a snapshot of a node that already included one of its transactions
+    trips the uniqueness assertion of `WriteSnapshot` (a panic inside `TopoWrite`), and nothing is written -/
+theorem reincluded_transaction_panics (cap : Id → Nat) (st : State) (snap : Snap) (sg : Nat) (t : Id)
+    (ht : t ∈ snap.txs) (hu : aget st.unique (t, snap.node) = some ()) :
+    WriteSnapshot cap st snap sg = (some .panic, st) := by
+  have hd : debugAsserts st snap = false := by
+    unfold debugAsserts
+    have : (snap.txs.all fun txh => (aget st.txs txh).isSome && (aget st.unique (txh, snap.node)).isNone) = false := by
+      rw [List.all_eq_false]
+      exact ⟨t, ht, by simp [hu]⟩
+    simp [this]
+  simp [WriteSnapshot, atomic, writeSnapshotTxn, hd]
+
 /-! ### the property is false of the code as it is: three concrete witnesses
 
   Amounts in whole units; asset 2 has capacity 2500 (Bitcoin in `GetAssetCapacity`), asset 6 is uncapped.
   Each witness is replayed on the real code by the harness (`knownShapes` in harness/c15_ledger_gen.go). -/
 
-def P : Params := ⟨fun a => if a = 2 then 2500 else 1000000, 1, 1⟩
+def P : Params := { cap := fun a => if a = 2 then 2500 else 1000000, xin := 1, claimFee := 1 }
 
 /-- validate, lock inputs, persist: what `validateSnapshotTransaction` does for a cached transaction -/
 def persistPending (st : State) (tx : Tx) : State :=
